@@ -950,7 +950,10 @@ def refactored(rid):
 
 for _rid in ("C01-r", "C02-r", "C03-r", "C04-r", "C05-r", "C07-r", "C08-r", "C09-r",
              "C10-r", "C11-r", "C12-r", "C13-r", "C14-r", "C15-r", "C16-r", "C17-r",
-             "C18-r", "C19-r", "C20-r"):
+             "C18-r", "C19-r", "C20-r",
+             "C01-s", "C02-s", "C03-s", "C04-s", "C05-s", "C07-s", "C08-s", "C09-s",
+             "C10-s", "C11-s", "C12-s", "C13-s", "C14-s", "C15-s", "C16-s", "C17-s",
+             "C18-s", "C19-s", "C20-s"):
     refactored(_rid)
 
 
